@@ -379,12 +379,39 @@ def rule_destroy(S):
     lam = facts.lambdas_of(bd)
     slot_destroy = any(is_call(n, cq=Y + 'link_or_value::destroy') for g in lam + [bd] for n in g.all_nodes())
     idx_from_perm = any(is_call(n, cq=Y + 'permutation::get_index_of_rank') for n in bd.all_nodes())
-    calls = [n for n in bd.all_nodes() if R.lambda_target(facts, bd, n) is not None or
-             (n['k'] == 'CXXMemberCallExpr' and n.get('cn') == 'emplace_back')]
-    # every path of the loop body processes the slot: count process invocations reachable (thread or direct)
-    S.ob('R-DESTROY', bd.qname, 'every occupied rank', slot_destroy and idx_from_perm and len(calls) >= 3,
-         'each occupied slot is destroyed on every branch of the loop' if (slot_destroy and idx_from_perm and len(calls) >= 3)
-         else 'border_node::destroy no longer destroys every occupied slot', loc=bd.loc)
+    # every path of the loop body processes the slot it looked up: directly (the closure / lv.destroy()) or by handing
+    # the closure to a helper thread (emplace_back into the thread vector)
+    from yk.flow import Explorer
+    destroy_lams = {g.fid for g in lam if any(is_call(n, cq=Y + 'link_or_value::destroy') for n in g.all_nodes())}
+    missed = {'path': None}
+
+    def dstep(ctx, n, st):
+        if is_call(n, cq=Y + 'permutation::get_index_of_rank'):
+            if st == 'pending' and missed['path'] is None:
+                missed['path'] = ctx.witness()
+            return 'pending'
+        tg = R.lambda_target(facts, bd, n)
+        if tg is not None and tg.fid in destroy_lams:
+            return 'done'
+        if is_call(n, cq=Y + 'link_or_value::destroy'):
+            return 'done'
+        if n['k'] == 'CXXMemberCallExpr' and n.get('cn') == 'emplace_back' and \
+                any(x['k'] == 'DeclRefExpr' and 'lambda' in (x.get('ty') or '') for a in call_args(bd, n) for x in bd.walk(a)):
+            return 'done'
+        if n['k'] == 'ReturnStmt':
+            if st == 'pending' and missed['path'] is None:
+                missed['path'] = ctx.witness()
+            return None
+        return st
+
+    ex_ = Explorer(bd, dstep)
+    ex_.run('none')
+    if any(s_ == 'pending' for s_ in ex_.exit_states) and missed['path'] is None:
+        missed['path'] = ['falls off the end']
+    every = slot_destroy and idx_from_perm and missed['path'] is None
+    S.ob('R-DESTROY', bd.qname, 'every occupied rank', every,
+         'each occupied slot is destroyed on every branch of the loop' if every
+         else 'border_node::destroy no longer destroys every occupied slot', loc=bd.loc, path=missed['path'])
     bound_ok = _loop_bound(bd, {'cnk'}, facts)
     S.ob('R-DESTROY', bd.qname, 'loop bound', bound_ok, 'iterates ranks 0..cnk-1' if bound_ok else
          'the loop over ranks is not bounded by the permutation count', loc=bd.loc)
